@@ -43,7 +43,7 @@ def one(rng: random.Random, k: int) -> dict:
     cls, args = EXC[k % len(EXC)]
     for fd in pd["funcs"]:
         if fd["name"] == victim:
-            fd["fail"] = {"when": "*", "cls": cls, "args": args}
+            fd["fail"] = {"when": "*", "cls": cls, "args": args, "prenote": k % 2 == 1}
     build.LOG.clear()
     with contextlib.redirect_stdout(io.StringIO()):
         pl = build.make_pipeline(pd)
